@@ -432,6 +432,12 @@ func (e *Engine) verifyContract(ct *Contract) (x *Exec, err error) {
 	x.nReq = len(x.c.Assumes)
 	entry := st0.clone()
 	rets := x.runFunc(fn, args, fvs, st0, TTrue, 0, true, env)
+	if ct.NoSend {
+		// a record for the evidence when the code has no send at all (each send
+		// found is its own obligation, failing iff it is reachable)
+		x.addObl(x.fname()+"#nosend", "nosend", "every channel send in the function's own code is unreachable", x.noSendProps(),
+			OblPart{NegGoal: TFalse, NAssume: len(x.c.Assumes), Where: "function"}, false)
+	}
 	var liveReach []Term
 	for ri, r := range rets {
 		if r.panicked {
